@@ -472,6 +472,43 @@ def suite_validate(ctx):
                     f'although all values are positive and finite',
                     {'mapping': m, 'name': name, 'how': how, 'values': vals,
                      'got': got})
+    # representation of the input: integer-typed / list / flat arrays are
+    # stored as float64 arrays of the grid's shape, and later assignments
+    # (setter, in place) keep their exact values
+    for t in range(12 if ctx.thorough else 6):
+        m = ['Resistivity', 'Conductivity'][t % 2]
+        name = ['property_x', 'property_z', 'mu_r', 'epsilon_r',
+                'property_y'][t % 5]
+        ints = rng.integers(1, 200, shp)
+        form = t % 3
+        inp = [ints.astype(np.int64), ints.astype(np.int32).ravel('F'),
+               ints.tolist()][form]
+        newv = rng.uniform(0.3, 7.7, shp)
+        kw = {'property_x': 1.0}
+        kw[name] = inp
+        try:
+            mod = emg3d.Model(grid, mapping=m, **kw)
+            stored = getattr(mod, name)
+            ok1 = stored.dtype == np.float64 and stored.shape == shp and \
+                np.array_equal(stored, ints.astype(float))
+            setattr(mod, name, newv.copy())
+            ok2 = np.array_equal(getattr(mod, name), newv)
+            mod2 = emg3d.Model(grid, mapping=m, **kw)
+            getattr(mod2, name)[...] = newv
+            ok3 = np.array_equal(getattr(mod2, name), newv)
+        except Exception as e:      # noqa
+            ok1 = ok2 = ok3 = False
+            stored = f'{type(e).__name__}: {e}'
+        if not (ok1 and ok2 and ok3):
+            bad.append(('representation', m, name, form))
+            ctx.violation(
+                'parameter-representation',
+                f'Model(mapping={m}, {name}=<{["int64 array", "flat int32 array", "nested list of ints"][form]}>): '
+                f'stored as float64 of the grid shape with the same values: '
+                f'{ok1}; values kept by the setter: {ok2}; by an in-place '
+                f'assignment: {ok3}',
+                {'mapping': m, 'name': name, 'form': form})
+        ctx.count(key=('representation', m, name, form))
     ctx.cov['validate_verdicts'] = kinds
     ctx.oblige('correspondence: Model constructor / setters == MapsM.check on '
                'the float classes of the conductivities (6 maps x 5 '
@@ -602,7 +639,10 @@ def suite_regrid(ctx):
             s[2:5, 3:6, 2:4] *= 10.0**rng.uniform(-1, 1)
             s *= 10.0**rng.uniform(-0.2, 0.2, shp)
             if w % 2:         # laterally constant, round values (0.1, 10, 1)
-                s = np.ones(shp)*np.r_[0.1, 0.1, 10., 10., 1., 1., 0.1, 5.][
+                # the two lowest layers: very resistive and distinct, but
+                # closer than 1e-8 S/m (equal for an absolute tolerance in the
+                # linear conductivity mapping only)
+                s = np.ones(shp)*np.r_[3e-9, 8e-9, 10., 10., 1., 1., 0.1, 5.][
                     None, None, :]
                 if d != 'x':
                     s[:, :, 2:] *= 2.0
